@@ -32,7 +32,7 @@ def check_fn(prop, cfg, tier, seed, ncases_override=None):
     extra = dict(
         programs=res.evaluations,                                     # scripts executed (one program = one script of tasgrid invocations)
         tool_invocations=cnt.get("tool_invocations", 0),
-        disagreements_checked=dict(                                   # number of individual tool-vs-API comparisons that could have disagreed
+        comparisons=dict(                                             # individual tool-vs-API comparisons that could have disagreed, by kind
             steps_compared=cnt.get("steps_compared", 0),
             grid_files_bytewise=cnt.get("grid_compared_ascii", 0) + cnt.get("grid_compared_binary", 0),
             grid_files_ascii=cnt.get("grid_compared_ascii", 0), grid_files_binary=cnt.get("grid_compared_binary", 0),
@@ -40,6 +40,9 @@ def check_fn(prop, cfg, tier, seed, ncases_override=None):
             matrices_stdout=cnt.get("matrix_compared_stdout", 0),
             texts=cnt.get("text_compared_stdout", 0) + cnt.get("text_compared_file", 0),
             steps_rejected_by_tool=cnt.get("steps_rejected_by_tool", 0)),
+        disagreements_checked=(cnt.get("grid_compared_ascii", 0) + cnt.get("grid_compared_binary", 0) + cnt.get("matrix_compared_binary", 0)
+                               + cnt.get("matrix_compared_ascii", 0) + cnt.get("matrix_compared_stdout", 0) + cnt.get("text_compared_stdout", 0)
+                               + cnt.get("text_compared_file", 0)),  # total number of tool-vs-API comparisons examined for disagreement
         commands_covered=cmds, num_commands_covered=len(cmds),
         tool=tool)
     return check.finish(prop, tier, seed, cfg.get("level", "translation_validation"), res, cfg["rule"], t0, extra_cov=extra,
